@@ -107,6 +107,10 @@ def main():
         ev.update({"property_id": pid, "tier": a.tier, "seed": seed,
                    "wall_s": round(time.time() - t0, 2), "violations": len(violations)})
         ev["coverage"]["drift_steps"] = len(drift)
+        import tlcrun as _t
+        if _t.SAMPLING:
+            ev["coverage"]["sampled_for_bounded_memory"] = _t.SAMPLING
+            ev["coverage"]["exhaustive"] = False
         ev["coverage"]["known_findings_seen"] = {k: len(v) for k, v in kf_seen.items()}
         evdir = os.path.join(os.environ.get("VERIF_OUT") or VERIF, "evidence")
         os.makedirs(evdir, exist_ok=True)
